@@ -41,6 +41,16 @@ def handle : Handler
     match unhexStr s with
     | some s => some (hexStr (unquote s))
     | none => some badArgs
+  | "unquoter", [s] =>
+    match unhexStr s with
+    | some s => some (hexStr (unquoteReplace s))
+    | none => some badArgs
+  | "envpath", [s] =>
+    match unhexStr s with
+    | some s =>
+      let pi := environPathInfo s
+      some (hexStr pi ++ "," ++ (match requestPath pi with | some r => hexStr r | none => "EXC:UnicodeEncodeError"))
+    | none => some badArgs
   | "unquotepart", [which, s] =>
     match keepOf which, unhexStr s with
     | some k, some s => some (hexStr (unquotePartial k s))
